@@ -467,6 +467,11 @@ class Sparse(RoundTrip):
         klass = rng.choice(["empty", "one", "one", "all"] + ["some"] * 6)
         subs, _ = gen.sparse_entries(rng, s, klass=klass, order=order)
         o = {"t": "sparse", "shape": s, "subs": subs, "vals": values(rng, len(subs), allow_zero=False)}
+        # explicitly STORED zeros of either sign are legal stored values (the constructor keeps them) and must come
+        # back bit for bit like every other double (seed C16y wrote whole numbers with "%d": -0.0 came back +0.0)
+        if subs and rng.random() < 0.4:
+            for i in rng.sample(range(len(subs)), rng.randint(1, min(3, len(subs)))):
+                o["vals"][i] = bits(rng.choice([-0.0, -0.0, 0.0]))
         return o
 
     @staticmethod
